@@ -232,6 +232,7 @@ ITEMS = [
          requires=[('indent_fits', 'old(self).indent_step * indent <= usize::MAX')],
          ensures=[('frame', 'r is Ok ==> same_block_cfg(final(self), old(self))')]),
     dict(src=SR, path='impl YamlSerializer/fn write_scalar_prefix_if_anchor', trusted=True, props=[]),
+    dict(src=SR, path='impl YamlSerializer/fn write_anchor_for_complex_node', trusted=True, props=[]),
     dict(src='src/wrapping.rs', path='fn is_block_scalar_safe', props=['C12', 'C20', 'C01'], optional=True, loop_rewrites=[(1, 'chars')],
          bounded=dict(harness='bounded/is_block_scalar_safe.rs', items=[('src/wrapping.rs', 'fn is_block_scalar_safe')]),
          ensures=[('C12:text_with_a_carriage_return_or_nul_is_not_block_safe', 'r ==> block_text_ok(s@)'),
@@ -502,6 +503,29 @@ ITEMS = [
 
 # ---- known-finding obligations of serialize_str#block live in a light copy of the fragment ----
 # (a failing assertion makes Verus re-check the whole function body; in the fully annotated copy that re-check costs minutes,
+# ---- F34: a tuple struct inside a flow collection is a flow sequence: the closing bracket (whole body of TupleSer::end) and the separators ----
+ITEMS += [
+    dict(src=SR, path='impl SerializeTupleStruct for TupleSer/fn end', id='TupleSer::end#whole', props=['C20', 'C01'],
+         fragment=r'(?<=fn end\(self\) -> Result<\(\)> \{).*(?=\}\s*$)', fragment_flags='S',
+         wrapper="fn tuple_ser_end_whole<'a>(ser: &mut YamlSerializer<'a>, normal: bool, idx: usize) -> Result<(), SerError> { {FRAG} }",
+         pre_rewrites=[(r'matches!\(self\.kind, TupleKind::Normal\)', 'normal', None, 'R9'), (r'\bself\.ser\.', 'ser.', None, 'R9'), (r'\bself\.idx\b', 'idx', None, 'R9')],
+         proofs=[dict(at='start', text='reveal_strlit("["); reveal_strlit("]"); reveal_strlit(" ");')],
+         ensures=[('C20:a_tuple_struct_inside_a_flow_collection_is_closed_by_a_bracket_and_an_empty_one_is_written_as_brackets',
+                   '''r is Ok && normal && old(ser).in_flow > 0 ==> ({ let t1 = final(ser).out.text(); let n = t1.len() as int;
+                        n >= 1 && t1[n - 1] == ']' && (idx == 0 ==> n >= 2 && t1[n - 2] == '[') && n > old(ser).out.text().len() })'''),
+                  ('C20:otherwise_nothing_is_written_at_the_end_of_a_tuple_struct', 'r is Ok && !(normal && old(ser).in_flow > 0) ==> final(ser).out.text() == old(ser).out.text()')],
+         canaries=['C20:a_tuple_struct_inside_a_flow_collection_is_closed_by_a_bracket_and_an_empty_one_is_written_as_brackets']),
+    dict(src=SR, path='impl SerializeTupleStruct for TupleSer/fn serialize_field', id='TupleSer::serialize_field#flow_open', props=['C20', 'C01'], optional=True,
+         fragment=r'if self\.idx == 0 \{\s*self\.ser\.write_space_if_pending\(\)\?;\s*self\.ser\.write_anchor_for_complex_node\(\)\?;\s*self\.ser\.out\.write_str\("\["\)\?;\s*\} else \{\s*self\.ser\.out\.write_str\(", "\)\?;\s*\}',
+         fragment_flags='S',
+         wrapper="fn tuple_ser_flow_open<'a>(ser: &mut YamlSerializer<'a>, idx: usize) -> Result<(), SerError> { {FRAG} Ok(()) }",
+         pre_rewrites=[(r'\bself\.ser\.', 'ser.', None, 'R9'), (r'\bself\.idx\b', 'idx', None, 'R9')],
+         proofs=[dict(at='start', text='reveal_strlit("["); reveal_strlit(", "); reveal_strlit(" ");')],
+         ensures=[('C20:the_first_field_of_a_flow_tuple_struct_opens_the_bracket_every_later_one_follows_a_comma',
+                   '''r is Ok ==> ({ let t0 = old(ser).out.text(); let t1 = final(ser).out.text(); let n = t1.len() as int;
+                        if idx == 0 { n >= 1 && t1[n - 1] == '[' } else { t1 =~= t0 + seq![',', ' '] } })''')]),
+]
+
 # so F19 / F20 are asserted in a copy that carries no other proof text, and the annotated copy verifies without errors)
 _KF = ('C20:a_block_scalar_carries_the_anchor_staged_for_it', 'C20:the_explicit_folded_wrapper_is_used_only_for_text_whose_line_breaks_it_preserves')
 def _split_known_findings():
